@@ -3,8 +3,9 @@ import GoJson.Lemmas.StrDec2
 namespace GoJson.Model.BufDec
 open GoJson GoJson.Spec GoJson.Model.StrDec
 
-/-- the relaxations the unchanged tree needs (open finding D02) -/
-def rxCurrent : Relax := { ctlInString := true }
+/-- the relaxations the unchanged tree needs: none since D02 (raw control bytes inside strings) was
+repaired; the grammar is RFC 8259 -/
+def rxCurrent : Relax := { ctlInString := false }
 
 theorem skipWs_split (s : List UInt8) :
     ∃ w, s = w ++ skipWs s ∧ AllWs w ∧ (∀ b r, skipWs s = b :: r → isWsByte b = false) := by
@@ -114,11 +115,12 @@ theorem scanBody_sound (l : List UInt8) (body : List UInt8) (n : Nat) (esc : Boo
     intro i hi
     simp at hi
     rcases hi with rfl | hi
-    · simp only [WF, Item.wf, Bool.not_false, Bool.false_or, Bool.and_true, Bool.and_eq_true, bne_iff_ne, ne_eq]
-      refine ⟨⟨?_, ?_⟩, ?_⟩
-      · exact ⟨by simpa using h2, by simpa using h1⟩
-      · simpa using h3
-      · trivial
+    · have h3' : ¬ c.toNat < 32 := by simpa using h3
+      have hc0 : c ≠ 0 := by intro hh; subst hh; simp at h3'
+      have hq : c ≠ 34 := by simpa using h2
+      have hb : c ≠ 92 := by simpa using h1
+      simp only [WF, Item.wf, Bool.not_true, Bool.false_or, Bool.and_eq_true, bne_iff_ne, ne_eq, decide_eq_true_eq]
+      exact ⟨⟨⟨hq, hb⟩, hc0⟩, by omega⟩
     · exact hw i hi
   case case13 => simp at h
 end GoJson.Model.BufDec
@@ -145,7 +147,7 @@ theorem elements_prepend_ws (rx : Relax) (range : Bool) (d : Nat) (w body : List
     simpa [List.append_assoc] using this
 
 theorem stringTail_sound (r rest : List UInt8) (h : stringTail r = .ok rest) :
-    ∃ items, (∀ i ∈ items, i.wf false = true) ∧ r = renderAll items ++ 34 :: rest := by
+    ∃ items, (∀ i ∈ items, i.wf true = true) ∧ r = renderAll items ++ 34 :: rest := by
   unfold stringTail at h
   cases hs : scanBody r with
   | error e => rw [hs] at h; cases e <;> simp at h
